@@ -102,7 +102,7 @@ func (r *run) open(root []byte) bool {
 	if r.bubble {
 		gate = func(op string, key []byte) { r.parker.Gate(op) }
 	}
-	se, err := triekit.NewStateEnvGated(r.disk, r.ewl, int(p.Knob("cache", 8)), uint(p.Knob("max_level", 5)), uint(p.Knob("ewl", 100)), cfg, 0, root, gate, int(p.Knob("delay", 0)))
+	se, err := triekit.NewStateEnvGated(r.disk, r.ewl, int(p.Knob("cache", 8)), uint(p.Knob("max_level", 5)), uint(p.Knob("ewl", 100)), cfg, uint64(p.Knob("holder", 0)), root, gate, int(p.Knob("delay", 0)))
 	if err != nil {
 		r.c.Violate("C09", "live-root-unreadable", "RecreateTrie", "cannot reopen the accounts DB on the head root %x: %v", root, err)
 		return false
@@ -151,6 +151,9 @@ func execute(c *simkit.Ctx, bubble bool) bool {
 		c.StepsDone++
 		if bubble {
 			synctest.Wait()
+			if c.Plan.Knob("drain_each", 0) == 1 {
+				r.drain() // forced checkpoints (tiny hashes holder) are run to completion after the step that triggered them
+			}
 			r.verifyPendings()
 		}
 		if !c.Failed(prop) && c.Harness == "" {
@@ -724,7 +727,7 @@ func (r *run) drain() {
 			r.parker.Release(0)
 			continue
 		}
-		if r.se.TSM.IsPruningBlocked() && len(r.pendings) > 0 {
+		if r.se.TSM.IsPruningBlocked() && (len(r.pendings) > 0 || r.blockedBy == 0) {
 			time.Sleep(time.Second)
 			r.c.SimNanos += int64(time.Second)
 			if i > 1000 {
